@@ -243,22 +243,30 @@ func ErrClass(err error) string {
 type Fs struct {
 	afero.Fs
 	S *Sched
-	C int
+	c atomic.Int32 // the API thread currently using the lock object built on this wrapper (several may share one object)
 }
 
-func (s *Sched) Wrap(inner afero.Fs, c int) *Fs { return &Fs{Fs: inner, S: s, C: c} }
+func (s *Sched) Wrap(inner afero.Fs, c int) *Fs {
+	f := &Fs{Fs: inner, S: s}
+	f.c.Store(int32(c))
+	return f
+}
+
+// SetActor names the API thread whose call is about to run on the lock object of this wrapper.
+func (f *Fs) SetActor(c int) { f.c.Store(int32(c)) }
+func (f *Fs) actor() int     { return int(f.c.Load()) }
 
 func (f *Fs) Name() string { return "lsched(" + f.Fs.Name() + ")" }
 
 func (f *Fs) Mkdir(name string, perm os.FileMode) error {
-	p := f.S.enter(f.C, "Mkdir", name, 0)
+	p := f.S.enter(f.actor(), "Mkdir", name, 0)
 	err := f.Fs.Mkdir(name, perm)
 	f.S.leave(p, ErrClass(err))
 	return err
 }
 
 func (f *Fs) Remove(name string) (err error) {
-	p := f.S.enter(f.C, "Remove", name, 0)
+	p := f.S.enter(f.actor(), "Remove", name, 0)
 	func() {
 		// afero's MemMapFs panics ("parent of ... is nil") when an entry whose directory has already been removed is
 		// removed; the harness turns that into an error of the operation instead of dying
@@ -275,7 +283,7 @@ func (f *Fs) Remove(name string) (err error) {
 }
 
 func (f *Fs) Chtimes(name string, atime, mtime time.Time) error {
-	p := f.S.enter(f.C, "Chtimes", name, 0)
+	p := f.S.enter(f.actor(), "Chtimes", name, 0)
 	err := f.Fs.Chtimes(name, atime, mtime)
 	f.S.leave(p, ErrClass(err))
 	return err
@@ -292,7 +300,7 @@ func (i *info) ModTime() time.Time { return i.mt }
 func (i *info) Sys() any { return nil }
 
 func (f *Fs) Stat(name string) (os.FileInfo, error) {
-	p := f.S.enter(f.C, "Stat", name, 0)
+	p := f.S.enter(f.actor(), "Stat", name, 0)
 	fi, err := f.Fs.Stat(name)
 	res := ErrClass(err)
 	if err == nil && fi != nil {
@@ -312,7 +320,7 @@ func (f *Fs) Stat(name string) (os.FileInfo, error) {
 
 // LstatIfPossible makes the wrapper an afero.Lstater (filesystem.VFS.Lstat goes through it).
 func (f *Fs) LstatIfPossible(name string) (os.FileInfo, bool, error) {
-	p := f.S.enter(f.C, "Lstat", name, 0)
+	p := f.S.enter(f.actor(), "Lstat", name, 0)
 	var fi os.FileInfo
 	var ok bool
 	var err error
@@ -334,7 +342,7 @@ func (f *Fs) LstatIfPossible(name string) (os.FileInfo, bool, error) {
 }
 
 func (f *Fs) Open(name string) (afero.File, error) {
-	p := f.S.enter(f.C, "Open", name, 0)
+	p := f.S.enter(f.actor(), "Open", name, 0)
 	h, err := f.Fs.Open(name)
 	f.S.leave(p, ErrClass(err))
 	if err != nil || h == nil {
@@ -344,7 +352,7 @@ func (f *Fs) Open(name string) (afero.File, error) {
 }
 
 func (f *Fs) OpenFile(name string, flag int, perm os.FileMode) (afero.File, error) {
-	p := f.S.enter(f.C, "OpenFile", name, 0)
+	p := f.S.enter(f.actor(), "OpenFile", name, 0)
 	h, err := f.Fs.OpenFile(name, flag, perm)
 	f.S.leave(p, ErrClass(err))
 	if err != nil || h == nil {
@@ -361,7 +369,7 @@ type File struct {
 }
 
 func (h *File) Readdirnames(n int) ([]string, error) {
-	p := h.fs.S.enter(h.fs.C, "Readdir", h.path, n)
+	p := h.fs.S.enter(h.fs.actor(), "Readdir", h.path, n)
 	names, err := h.File.Readdirnames(n)
 	res := ErrClass(err)
 	if res == "ok" || res == "eof" {
